@@ -182,7 +182,71 @@ def gen_tables(out):
     return anchors
 
 
-GENERATORS = [gen_tables]
+def c_string_bytes(lit):
+    """bytes of a C string literal body (handles \\0 and \\xNN), plus the implicit terminating NUL"""
+    out = []
+    i = 0
+    while i < len(lit):
+        c = lit[i]
+        if c == "\\":
+            n = lit[i + 1]
+            if n == "0":
+                out.append(0); i += 2
+            elif n == "x":
+                out.append(int(lit[i + 2:i + 4], 16)); i += 4
+            elif n == "n":
+                out.append(10); i += 2
+            else:
+                out.append(ord(n)); i += 2
+        else:
+            out.append(ord(c)); i += 1
+    out.append(0)
+    return out
+
+
+def gen_wopn(out):
+    w = src("src/wopn/wopn_file.c")
+    h = src("src/wopn/wopn_file.h")
+    mag = {}
+    for name in ("wopn2_magic1", "wopn2_magic2", "opni_magic1", "opni_magic2"):
+        m = find(name, w, r'static const char\s*\*%s = "((?:[^"\\]|\\.)*)";' % name)
+        b = c_string_bytes(m.group(1))[:11]
+        if len(b) != 11:
+            raise AnchorError(name, "magic shorter than the 11 bytes that are compared")
+        mag[name] = b
+    latest = int(find("wopn_latest_version", w, r"static const uint16_t\s+wopn_latest_version = (\d+);").group(1))
+    v1 = int(find("WOPN_INST_SIZE_V1", w, r"WOPN_INST_SIZE_V1 = (\d+)").group(1))
+    v2 = int(find("WOPN_INST_SIZE_V2", w, r"WOPN_INST_SIZE_V2 = (\d+)").group(1))
+    find("wopn_magic_len", w, r"memcmp\(cursor, wopn2_magic1, 11\)")
+    find("wopn_meta_size", w, r"if\(length < 34\)")
+    find("wopn_inst_name_len", h, r"char\s+inst_name\[32\];")
+    find("wopn_bank_name_len", h, r"char\s+bank_name\[33\];")
+    errs = {}
+    em = find("wopn_error_codes", h, r"typedef enum WOPN_ErrorCodes\s*\{(.*?)\}\s*WOPN_ErrorCodes;")
+    names = re.findall(r"(WOPN_ERR_\w+)", strip_comments(em.group(1)))
+    for i, n in enumerate(names):
+        errs[n] = i
+    need = ["WOPN_ERR_OK", "WOPN_ERR_BAD_MAGIC", "WOPN_ERR_UNEXPECTED_ENDING", "WOPN_ERR_INVALID_BANKS_COUNT",
+            "WOPN_ERR_NEWER_VERSION", "WOPN_ERR_OUT_OF_MEMORY", "WOPN_ERR_NULL_POINTER"]
+    for n in need:
+        if n not in errs:
+            raise AnchorError("wopn_error_codes", "missing " + n)
+    blank = int(find("WOPN_Ins_IsBlank", h, r"WOPN_Ins_IsBlank\s*=\s*(0x[0-9a-fA-F]+|\d+)").group(1), 0)
+    L = ["-- GENERATED by tools/translate.py from /repo (do not edit)", "namespace Opn.Gen"]
+    for k, v in mag.items():
+        L.append("def %s : List Nat := %s" % (k.replace("wopn2_magic", "wopnMagic").replace("opni_magic", "opniMagic"), lean_list(v)))
+    L.append("def wopnLatestVersion : Nat := %d" % latest)
+    L.append("def wopnInstSizeV1 : Nat := %d" % v1)
+    L.append("def wopnInstSizeV2 : Nat := %d" % v2)
+    L.append("def wopnInsBlank : Nat := %d" % blank)
+    for n in need:
+        L.append("def %s : Nat := %d" % ("wopnErr" + "".join(x.capitalize() for x in n.replace("WOPN_ERR_", "").split("_")), errs[n]))
+    L.append("end Opn.Gen")
+    out["Wopn.lean"] = "\n".join(L) + "\n"
+    return {"wopn_magics": 4, "wopn_latest_version": latest, "WOPN_INST_SIZE_V1": v1, "WOPN_INST_SIZE_V2": v2, "wopn_error_codes": len(names)}
+
+
+GENERATORS = [gen_tables, gen_wopn]
 
 
 def translate(write=True):
